@@ -141,3 +141,248 @@ Proof.
     rewrite H. rewrite bytes_eqb_refl. auto.
   - rewrite (IHl x (key x)); auto.
 Qed.
+
+(* ------------------------------------------------------------------ per-kind content of td_wf *)
+Lemma td_wf_name : forall S t, td_wf S t = true -> user_name_ok (td_name t) = true.
+Proof. intros S t H. unfold td_wf in H. apply andb_true_iff in H. tauto. Qed.
+
+Lemma user_name_not_uu : forall n, user_name_ok n = true -> starts_uu n = false.
+Proof. intros n H. unfold user_name_ok in H. apply andb_true_iff in H. destruct H as [_ H]. apply negb_true_iff in H. auto. Qed.
+Lemma user_name_nonempty : forall n, user_name_ok n = true -> n <> [].
+Proof. intros n H E. subst. discriminate. Qed.
+
+Definition g1 (idx : list (name * idx_entry)) (dds : list directive_def) (all : list type_def) (t : type_def) : itype :=
+  hd (empty_type IK_SCALAR []) (gen_type idx dds all t).
+Definition gd (idx : list (name * idx_entry)) (dds : list directive_def) (d : directive_def) : idirective :=
+  {| id_name := dd_name d; id_locations := dd_locations d; id_args := map (gen_input idx dds) (dd_args d);
+     id_repeatable := dd_repeatable d |}.
+
+Lemma gen_type_user : forall idx dds all t, starts_uu (td_name t) = false -> gen_type idx dds all t = [g1 idx dds all t].
+Proof. intros. unfold g1, gen_type. destruct (td_kind t); rewrite ?H; reflexivity. Qed.
+Lemma gen_directive_user : forall idx dds d, starts_uu (dd_name d) = false -> gen_directive idx dds d = [gd idx dds d].
+Proof. intros. unfold gen_directive. rewrite H. reflexivity. Qed.
+Lemma g1_name : forall idx dds all t, starts_uu (td_name t) = false -> it_name (g1 idx dds all t) = td_name t.
+Proof. intros. unfold g1, gen_type. destruct (td_kind t); rewrite ?H; reflexivity. Qed.
+
+Section Shape.
+  Variable S : schema.
+  Hypothesis WF : wf_schema S = true.
+  Hypothesis GOK : gen_ok S.
+
+  Definition ts0 : list type_def := s_types S ++ base_scalars ++ base_meta_types.
+  Definition M : schema := merge_base S.
+  Definition idx : list (name * idx_entry) := build_index S M.
+  Definition dds : list directive_def := s_directives S ++ base_public_directives ++ base_internal_directives.
+
+  Lemma query_root : exists tq, find_type (s_query S) (s_types S) = Some tq /\ td_kind tq = KObject /\ In tq (s_types S).
+  Proof.
+    destruct (wf_parts S WF) as [_ [_ [_ [_ [Q _]]]]]. unfold root_wf in Q.
+    destruct (find_type (s_query S) (s_types S)) as [tq|] eqn:E; try discriminate.
+    exists tq. split; auto. split. { apply kind_eqb_eq. auto. } apply find_type_In in E. tauto.
+  Qed.
+
+  Lemma user_type_name_ok : forall t, In t (s_types S) -> user_name_ok (td_name t) = true.
+  Proof. intros t I. destruct (wf_parts S WF) as [_ [_ [T _]]]. eapply td_wf_name. apply T. auto. Qed.
+
+  Lemma query_nonempty : s_query S <> [].
+  Proof.
+    destruct query_root as [tq [F [_ I]]]. apply find_type_In in F. destruct F as [_ F]. rewrite <- F.
+    apply user_name_nonempty. apply user_type_name_ok. auto.
+  Qed.
+
+  Lemma has_query : has_type (s_query S) ts0 = true.
+  Proof.
+    destruct query_root as [tq [F _]]. unfold has_type, ts0. rewrite find_type_app, F. auto.
+  Qed.
+
+  Lemma base_no_root_object : forall n, has_object n (base_scalars ++ base_meta_types) = true -> starts_uu n = true.
+  Proof.
+    intros n H. unfold has_object in H. apply existsb_exists in H. destruct H as [t [I H]].
+    apply andb_true_iff in H. destruct H as [O E]. apply bytes_eqb_eq in E. subst n.
+    simpl in I. repeat (destruct I as [I|I]; [subst t; try discriminate; reflexivity|]). contradiction.
+  Qed.
+
+  Lemma root_default_same : forall declared def,
+    starts_uu def = false ->
+    (declared = None -> has_object_named def S = false) ->
+    root_or_default declared def ts0 = declared.
+  Proof.
+    intros declared def U H. unfold root_or_default. destruct declared; auto.
+    unfold ts0. rewrite has_object_app. rewrite has_object_named_eq, H; auto. cbn [orb].
+    destruct (has_object def (base_scalars ++ base_meta_types)) eqn:E; auto.
+    apply base_no_root_object in E. congruence.
+  Qed.
+
+  Lemma merged_types : s_types M = map (add_typename (match s_subscription S with Some n => n | None => [] end))
+                                        (update_first (s_query S) add_introspection_fields ts0).
+  Proof.
+    destruct (gen_ok_parts S GOK) as [_ [_ [_ [_ [_ [_ [_ [_ RS]]]]]]]].
+    unfold M, merge_base. fold ts0. rewrite has_query. cbn [s_types].
+    rewrite (root_default_same (s_subscription S) #"Subscription"); auto.
+  Qed.
+  Lemma merged_dirs : s_directives M = dds.
+  Proof. reflexivity. Qed.
+  Lemma merged_query : s_query M = s_query S.
+  Proof.
+    unfold M, merge_base. fold ts0. rewrite has_query. cbn [s_query].
+    destruct (s_query S) eqn:E; auto. exfalso. apply query_nonempty. auto.
+  Qed.
+  Lemma merged_mutation : s_mutation M = s_mutation S.
+  Proof.
+    destruct (gen_ok_parts S GOK) as [_ [_ [_ [_ [_ [_ [_ [RM _]]]]]]]].
+    unfold M, merge_base. fold ts0. rewrite has_query. cbn [s_mutation].
+    apply root_default_same; auto.
+  Qed.
+  Lemma merged_subscription : s_subscription M = s_subscription S.
+  Proof.
+    destruct (gen_ok_parts S GOK) as [_ [_ [_ [_ [_ [_ [_ [_ RS]]]]]]]].
+    unfold M, merge_base. fold ts0. rewrite has_query. cbn [s_subscription].
+    apply root_default_same; auto.
+  Qed.
+
+  Definition G1 (t : type_def) : itype := g1 idx dds ts0 t.
+  Definition GD (d : directive_def) : idirective := gd idx dds d.
+
+  Lemma generated_types :
+    flat_map (gen_type idx dds (s_types M)) (s_types M) = map G1 (s_types S) ++ map scalar_itype base_scalar_names.
+  Proof.
+    rewrite merged_types. rewrite gen_types_decorated. unfold ts0 at 2.
+    rewrite !flat_map_app, gen_meta_nil, gen_base_scalars, app_nil_r. f_equal.
+    apply flat_map_singleton. intros t I. apply gen_type_user. apply user_name_not_uu. apply user_type_name_ok. auto.
+  Qed.
+
+  Lemma user_dir_name_ok : forall d, In d (s_directives S) -> user_name_ok (dd_name d) = true.
+  Proof.
+    intros d I. destruct (wf_parts S WF) as [_ [_ [_ [D _]]]]. specialize (D d I).
+    unfold dd_wf in D. andb_split D. auto.
+  Qed.
+
+  Lemma generated_dirs :
+    flat_map (gen_directive idx dds) dds = map GD (s_directives S) ++ map GD base_public_directives.
+  Proof.
+    unfold dds at 2. rewrite !flat_map_app. f_equal; try reflexivity.
+    apply flat_map_singleton. intros d I. apply gen_directive_user. apply user_name_not_uu. apply user_dir_name_ok. auto.
+  Qed.
+
+  (* --- no panic --- *)
+  Lemma user_dirs_no_panic : forall ds, In ds (all_deprecable_dirs S) -> dirs_wf ds = true -> dirs_panic ds = false.
+  Proof.
+    intros ds I W. destruct (gen_ok_parts S GOK) as [_ [_ [N _]]]. apply dirs_no_panic; auto.
+  Qed.
+
+  Lemma iv_wf_dirs : forall iv, iv_wf S iv = true -> dirs_wf (iv_dirs iv) = true.
+  Proof. intros iv H. unfold iv_wf in H. andb_split H. auto. Qed.
+
+  Lemma ivs_no_panic : forall ivs, (forall iv, In iv ivs -> In iv (all_input_values S)) -> ivs_wf S ivs = true ->
+    existsb iv_panics ivs = false.
+  Proof.
+    intros ivs I W. unfold ivs_wf in W. apply andb_true_iff in W. destruct W as [_ W].
+    rewrite forallb_forall in W. apply existsb_false_forall. intros iv Iv. unfold iv_panics.
+    apply user_dirs_no_panic. { apply in_deprecable_iv. auto. } apply iv_wf_dirs. auto.
+  Qed.
+
+  Lemma user_type_clean : forall t, In t (s_types S) -> type_clean t.
+  Proof.
+    intros t I. destruct (wf_parts S WF) as [_ [_ [T _]]]. specialize (T t I).
+    unfold td_wf in T. apply andb_true_iff in T. destruct T as [_ T].
+    unfold type_clean.
+    destruct (td_kind t) eqn:K; andb_split T;
+      repeat match goal with H : is_nil _ = true |- _ => apply is_nil_eq in H; rewrite H end.
+    - (* scalar *) repeat split; try (intros; contradiction); auto. intros _.
+      unfold specified_panic, scalar_dirs_wf in *. rewrite find_dir_sp.
+      destruct (sp_dir #"specifiedBy" (td_dirs t)); auto. rewrite find_arg_sp.
+      destruct (sp_arg #"url" d) as [v|]; try discriminate. destruct v; try discriminate. auto.
+    - (* object *) split; [|repeat split; auto; intros; discriminate].
+      intros f If. unfold fields_wf in T1. andb_split T1. rewrite forallb_forall in T4. specialize (T4 f If).
+      unfold fd_wf in T4. andb_split T4. split.
+      + apply user_dirs_no_panic; auto. eapply in_deprecable_field; eauto.
+      + apply ivs_no_panic; auto. intros. eapply in_all_input_values_arg; eauto.
+    - (* interface *) split; [|repeat split; auto; intros; discriminate].
+      intros f If. unfold fields_wf in T1. andb_split T1. rewrite forallb_forall in T4. specialize (T4 f If).
+      unfold fd_wf in T4. andb_split T4. split.
+      + apply user_dirs_no_panic; auto. eapply in_deprecable_field; eauto.
+      + apply ivs_no_panic; auto. intros. eapply in_all_input_values_arg; eauto.
+    - (* union *) repeat split; try (intros; contradiction); auto. intros; discriminate.
+    - (* enum *) repeat split; try (intros; contradiction); auto; try (intros; discriminate).
+      apply existsb_false_forall. intros e Ie. rewrite forallb_forall in T5. specialize (T5 e Ie).
+      unfold ev_wf in T5. andb_split T5. apply user_dirs_no_panic; auto. eapply in_deprecable_enum; eauto.
+    - (* input *) repeat split; try (intros; contradiction); auto; try (intros; discriminate).
+      apply ivs_no_panic; auto. intros. eapply in_all_input_values_input; eauto.
+  Qed.
+
+  Lemma merged_no_type_panic : existsb type_panics (s_types M) = false.
+  Proof.
+    apply existsb_false_forall. intros t I. apply type_clean_no_panic.
+    rewrite merged_types in I. apply in_map_iff in I. destruct I as [t' [E I]]. subst t.
+    apply type_clean_add_typename.
+    assert (F : Forall type_clean (update_first (s_query S) add_introspection_fields ts0)).
+    { apply Forall_update_first. apply type_clean_add_intro. unfold ts0. apply Forall_app. split.
+      - apply Forall_forall. apply user_type_clean.
+      - apply base_types_clean. }
+    rewrite Forall_forall in F. auto.
+  Qed.
+
+  Lemma merged_no_dir_panic : existsb (fun d => existsb iv_panics (dd_args d)) dds = false.
+  Proof.
+    unfold dds. rewrite !existsb_app. apply orb_false_iff. split; [|reflexivity].
+    apply existsb_false_forall. intros d I. destruct (wf_parts S WF) as [_ [_ [_ [D _]]]]. specialize (D d I).
+    unfold dd_wf in D. andb_split D. apply ivs_no_panic; auto. intros. eapply in_all_input_values_dir; eauto.
+  Qed.
+
+  (* --- names of the generated types --- *)
+  Lemma generated_names :
+    map it_name (map G1 (s_types S) ++ map scalar_itype base_scalar_names) = map td_name (s_types S) ++ base_scalar_names.
+  Proof.
+    rewrite map_app, !map_map. f_equal.
+    - apply map_ext_in. intros t I. apply g1_name. apply user_name_not_uu. apply user_type_name_ok. auto.
+    - reflexivity.
+  Qed.
+
+  Lemma all_names_nodup : NoDup (map td_name (s_types S) ++ base_scalar_names).
+  Proof.
+    destruct (wf_parts S WF) as [ND _]. destruct (gen_ok_parts S GOK) as [_ [_ [_ [_ [_ [B _]]]]]].
+    apply NoDup_app_intro; auto.
+    - repeat constructor; simpl; intuition discriminate.
+    - intros n I1 I2. apply in_map_iff in I1. destruct I1 as [t [E I]]. subst n. eapply B; eauto.
+  Qed.
+
+  Lemma lookup_generated : forall n t, find_type n (s_types S) = Some t ->
+    type_by_name n (map G1 (s_types S) ++ map scalar_itype base_scalar_names) = Some (G1 t).
+  Proof.
+    intros n t F. apply find_type_In in F. destruct F as [I E]. unfold type_by_name.
+    apply find_last_unique.
+    - rewrite generated_names. apply all_names_nodup.
+    - apply in_or_app. left. apply in_map. auto.
+    - unfold G1. rewrite g1_name; auto. apply user_name_not_uu. apply user_type_name_ok. auto.
+  Qed.
+
+  Definition opt_root (n : option name) : option itype :=
+    match n with
+    | Some n => match find_type n (s_types S) with Some t => Some (G1 t) | None => None end
+    | None => None
+    end.
+
+  Lemma opt_root_lookup : forall n, opt_root_wf S n = true ->
+    match n with Some n => type_by_name n (map G1 (s_types S) ++ map scalar_itype base_scalar_names) | None => None end = opt_root n.
+  Proof.
+    intros [n|] H; simpl; auto. unfold root_wf in H.
+    destruct (find_type n (s_types S)) eqn:F; try discriminate. apply lookup_generated. auto.
+  Qed.
+
+  Theorem generate_shape : exists tq,
+    find_type (s_query S) (s_types S) = Some tq /\
+    generate S = Some {| i_query := G1 tq; i_mutation := opt_root (s_mutation S);
+                         i_subscription := opt_root (s_subscription S);
+                         i_types := map G1 (s_types S) ++ map scalar_itype base_scalar_names;
+                         i_directives := map GD (s_directives S) ++ map GD base_public_directives |}.
+  Proof.
+    destruct query_root as [tq [F [K I]]]. exists tq. split; auto.
+    destruct (wf_parts S WF) as [_ [_ [_ [_ [_ [RM RS]]]]]].
+    unfold generate. fold M. fold idx. rewrite merged_dirs. fold dds.
+    rewrite merged_no_type_panic, merged_no_dir_panic. cbn [orb].
+    rewrite generated_types, generated_dirs, merged_query, merged_mutation, merged_subscription.
+    destruct (s_query S) eqn:Q. { exfalso. apply query_nonempty. auto. }
+    rewrite <- Q. rewrite (lookup_generated _ _ F).
+    rewrite (opt_root_lookup _ RM), (opt_root_lookup _ RS). auto.
+  Qed.
+End Shape.
